@@ -9,13 +9,13 @@ operation alphabet, see C05's assumptions; not part of the model document).
 * `ExportGenesis` iterates the pool store (key `0x06 ++ id`: ascending pool id bytes), attaches
   `GetRewardRules`, then iterates the farmer store (key `0x03 ++ address ++ poolId`).
 * `ValidateGenesis`: every pool id parses (`farm-<n>`), description length, per rule
-  `total > 0`, `remaining ≥ 0`, `rewardPerBlock > 0` and the reward-per-share rule ("positive,
-  unless nothing was ever distributed or the pool ended at its last distribution height");
+  `total > 0`, `remaining ≥ 0`, `rewardPerBlock > 0`, `rewardPerShare ≥ 0` (commit 815496d:
+  the accumulator is truncated to 18 decimals and may stay zero after a release);
   `sequence ≥ max id`; every farmer record has a valid pool id, `locked > 0` and a valid debt.
 * `InitGenesis` panics on an invalid document; then, per pool in document order, `SetRewardRule`
-  for every rule, `SetPool`, and `EnqueueActivePool` iff `!Expired(ctx, pool)` — evaluated on the
-  store being rebuilt, so a pool whose end height equals the import height finds no queue key
-  and counts as expired; per farmer record, panic unless its pool exists, `SetFarmInfo`;
+  for every rule, `SetPool`, and `EnqueueActivePool` iff `ctx.BlockHeight() ≤ pool.EndHeight`
+  (commit 0c5f83b; before, `!Expired(ctx, pool)` consulted the very queue being rebuilt and
+  dropped a pool ending at the import height); per farmer record, panic unless its pool exists, `SetFarmInfo`;
   `SetSequence`; `SetParams` (panics on an invalid tax rate).
 
 Abstractions: the ghost fields of `Rule` (history variables, not module state) travel with the
@@ -41,9 +41,7 @@ structure Genesis where
 
 /-- `ValidatepPoolId`: the sequence number of a pool id -/
 def poolSeq? (id : PoolId) : Option Nat :=
-  match (match id.toList with
-         | 'f' :: 'a' :: 'r' :: 'm' :: '-' :: rest => uintOf rest
-         | l => uintOf l) with
+  match poolNum? id with
   | some n => if n ≠ 0 ∧ n < 18446744073709551616 then some n else none
   | none => none
 
@@ -71,10 +69,8 @@ def validateRules (p : Pool) : List Rule → Except Err Unit
   | r :: rs =>
     if r.total = 0 then rej "totalReward must be positive"
     else if r.rpb = 0 then rej "rewardPerBlock must be positive"
-    else if r.rps.raw > 0 then validateRules p rs
-    else if r.remaining = r.total then validateRules p rs
-    else if p.endH = p.last then validateRules p rs
-    else rej "rewardPerShare must be positive"
+    else if r.rps.raw < 0 then rej "rewardPerShare must not be negative"
+    else validateRules p rs
 
 /-- the loop over `data.Pools`; returns `maxSeq` -/
 def validatePools : List (PoolId × Pool) → Nat → Except Err Nat
@@ -105,9 +101,10 @@ def validateGenesis (g : Genesis) : Except Err Unit :=
 
 /-! ### InitGenesis -/
 
-/-- `SetRewardRule`s, `SetPool`, and `EnqueueActivePool` iff `!Expired` on the store being rebuilt -/
+/-- `SetRewardRule`s, `SetPool`, and `EnqueueActivePool` iff the end height has not passed
+(heights alone, commit 0c5f83b) -/
 def importPool (s : State) (id : PoolId) (p : Pool) : State :=
-  if expired (setPool s id p) id p then setPool s id p else enqueue (setPool s id p) id p.endH
+  if s.height ≤ p.endH then enqueue (setPool s id p) id p.endH else setPool s id p
 
 def importPools (s : State) : List (PoolId × Pool) → State
   | [] => s
